@@ -96,6 +96,7 @@ namespace sqf::runtime
         bool m_bubble_variable;
         bool m_started;
         bool m_die;
+        size_t m_die_position;
         size_t m_value_stack_pos;
 
     private:
@@ -120,7 +121,8 @@ namespace sqf::runtime
             m_globals_value_scope(globals_scope),
             m_bubble_variable(true),
             m_started(false),
-            m_die(false)
+            m_die(false),
+            m_die_position(position_invalid)
         {}
 
 #ifdef DF__SQF_RUNTIME__ASSEMBLY_DEBUG_ON_EXECUTE
@@ -186,6 +188,10 @@ namespace sqf::runtime
 
         sqf::runtime::diagnostics::diag_info diag_info_from_position() const
         {
+            if (m_die && m_die_position < m_instruction_set.size())
+            { // The scope was left (exitWith): the instruction that left it is where this frame is, not its last one
+                return (*(m_instruction_set.begin() + m_die_position))->diag_info();
+            }
             if (m_position == position_invalid)
             {
                 return m_instruction_set.empty() ? sqf::runtime::diagnostics::diag_info{} : (*m_instruction_set.begin())->diag_info();
@@ -264,6 +270,7 @@ namespace sqf::runtime
         }
         void die()
         {
+            m_die_position = m_position;
             seek(0, ::sqf::runtime::frame::seekpos::end);
             m_die = true;
         }
